@@ -370,6 +370,7 @@ func c03(r *Run) {
 
 	// ---- R6 reference-count shape (shared with C02.R5) and R7 caller memory is never handed out for writing (C01.R5)
 	r.borrow([]string{"C02.R5:"}, "C02.R5", "C03.R6", func() { c02(r) })
+	r.borrow([]string{"C02.R4:WriteDirect:unlinked-split"}, "C02.R4", "C03.R6", func() { c02(r) })
 	r.borrow([]string{"C01.R5:"}, "C01.R5", "C03.R7", func() { c01(r) })
 
 	// ---- R5 plain writes of the reference count -----------------------------------------------------------
